@@ -167,6 +167,7 @@ def run(ctx, rep):
                                    "worker-typed field to keep it in)", trivial=True))
     rep.floor("facade obligations", n_f, ftab["facade_floor"])
     reset_rule(ctx, rep, ftab)
+    uninit_rule(ctx, rep)
     rep.extra_cov["e2"] = {"ir_functions": len(g.fns), "reachable": len(reach), "entry_functions": len(present),
                            "pointer_as_data_functions_in_draco_sources": n_ptr}
 
@@ -220,3 +221,34 @@ def reset_rule(ctx, rep, ftab):
     rep.control("RESET", "c06_ResetOk.worker_ (negative)", ctl.get("c06_ResetOk.worker_") == DISCHARGED,
                 "reset-then-create must be discharged")
     rep.floor("RESET: per-run members of the encoder-worker hierarchy", n_real, ftab["reset_floor"])
+
+
+def uninit_rule(ctx, rep):
+    """UNINIT: see verif/uninit.py"""
+    from ..uninit import check_fn
+    F = ctx.F
+    rep.rules_text.append(
+        "UNINIT (E1): every uninitialised scalar heap array (`new T[n]` without value-initialisation) held by a "
+        "local in Reach(encode+decode) is completely written - by a fill callee (GetValue, ConvertValue, memcpy, "
+        "...), by a draco callee whose body fills its parameter in a loop without leaving early, or by element "
+        "stores in a loop bounded by the allocation's own size - before any use that can read it")
+    scope = set(ctx.reach("encode")) | set(ctx.reach("decode"))
+    fns = [F.fns[k] for k in sorted(scope) if k in F.fns and "/draco/" in F.fns[k].file]
+    fns += [f for f in F.fns.values() if f.name.startswith("verif_control::c06_uninit")]
+    seen, n, ctl = set(), 0, {}
+    for fn in fns:
+        is_ctl = fn.name.startswith("verif_control::")
+        for name, site, ok, det in check_fn(F, fn):
+            key = (fn.base, name, site)
+            if key in seen:
+                continue
+            seen.add(key)
+            rep.add(Obligation("UNINIT", fn.base, "new[] held by " + str(name), site,
+                               DISCHARGED if ok else VIOLATION, detail=det, control=is_ctl))
+            if is_ctl:
+                ctl[fn.name.split("::")[-1]] = ok
+            else:
+                n += 1
+    rep.floor("UNINIT: uninitialised scalar heap arrays on the codec paths", n, 0)
+    rep.control("UNINIT", "c06_uninit_bad", ctl.get("c06_uninit_bad") is False, "partially filled scratch array must be reported")
+    rep.control("UNINIT", "c06_uninit_ok (negative)", ctl.get("c06_uninit_ok") is True, "loop-filled array must be discharged")
